@@ -746,4 +746,102 @@ Proof.
         apply Hfin; auto. unfold snearest. change (@None (list N * list N)) with (option_map kv None). rewrite <- map_lfloor, <- tfloor_spec by exact Hs.
         rewrite TF. cbn [option_map]. destruct (elements (T c l x r)); [discriminate|]. cbn in Hhd. inversion Hhd; subst. reflexivity.
 Qed.
+
+(* ---- the continuation of a walk from a node inside the tree whose parent links up to the root are in place ---- *)
+Section Climb.
+Variable t : tree node.
+Variable tid : N.
+Lemma visc_all tm u : (forall j, In j (ids u) -> st tid tm j = false) -> visc tid tm u = ids u.
+Proof. intros H. unfold visc. destruct u as [|c l x r]; [reflexivity|]. cbn [ust]. rewrite H by (apply rootid_in; reflexivity). cbn [negb]. apply vis_all. exact H. Qed.
+
+Lemma climb_run : forall u m i ri, plink (mnexts m) u i -> rootid u = Some ri -> wfv t u -> NoDup (ids u) -> cur m = Some i ->
+  exists n m' ys, runm t tid n m = (ys, m') /\ cur m' = PM.find ri (mnexts m) /\
+    stamps tid m m' ys /\ incl ys (ids u) /\ length ys <= size u /\
+    ((forall j, In j (ids u) -> st tid (mtids m) j = false) -> Permutation ys (ids u)) /\
+    (forall j, j = ri \/ ~ In j (ids u) -> PM.find j (mnexts m') = PM.find j (mnexts m)) /\
+    st tid (mtids m') ri = true /\ n + 1 <= 3 * size u.
+Proof.
+  induction u as [|c l IHl x r IHr]; intros m i ri P Hri Hwf Hnd Hcur; [inversion P|].
+  cbn [rootid] in Hri. inversion Hri; subst ri; clear Hri.
+  destruct (nodup_node _ _ _ _ Hnd) as (Hndl & Hndr & Hxl & Hxr & Hdis).
+  pose proof Hwf as (Hv & Hwl & Hwr).
+  assert (Hout : forall j, j = nid x \/ ~ In j (ids (T c l x r)) -> ~ In j (ids l) /\ ~ In j (ids r)).
+  { intros j [->|Hj]; [auto|]. split; intros Hin; apply Hj; rewrite ids_node; apply in_or_app; [left|right; right]; exact Hin. }
+  inversion P as [c0 l0 x0 r0 | c0 l0 x0 r0 i0 Pl Lk | c0 l0 x0 r0 i0 Pr Lk]; subst.
+  - (* the cursor is the root of u *)
+    destruct (walk_sub t tid (T c l x r) m (nid x) eq_refl Hwf Hnd Hcur) as (n & m' & Hrun & Hc & Hst & Hnx & Hn).
+    exists n, m', (vis tid (mtids m) (T c l x r)). split; [exact Hrun|]. split; [exact Hc|]. split; [exact Hst|].
+    split; [intros j Hj; apply (vis_in _ _ _ _ Hj)|]. split; [apply vis_length|]. split; [intros Hall; rewrite vis_all by exact Hall; apply Permutation_refl|].
+    split; [exact Hnx|]. split; [|exact Hn].
+    destruct (st tid (mtids m) (nid x)) eqn:S; [eapply stamps_mono; eauto|]. eapply stamps_in; eauto. apply vis_root. exact S.
+  - (* the cursor is in the left subtree *)
+    destruct l as [|cl ll lx lr]; [inversion Pl|]. cbn [linkok] in Lk.
+    destruct (IHl m i (nid lx) Pl eq_refl Hwl Hndl Hcur) as (n1 & m1 & ys1 & Hr1 & Hc1 & Hs1 & Hi1 & Hl1 & Hp1 & Hx1 & Hst1 & Hn1).
+    rewrite Lk in Hc1.
+    assert (Hul : ust tid (mtids m1) (T cl ll lx lr) = false) by (cbn [ust]; rewrite Hst1; reflexivity).
+    destruct (rest_part t tid c (T cl ll lx lr) x r m1 Hwf Hnd Hc1 Hul) as (n2 & m2 & Hr2 & Hc2 & Hs2 & Hx2 & Hst2 & Hn2).
+    set (ys2 := (if st tid (mtids m1) (nid x) then [] else [nid x]) ++ visc tid (mtids m1) r) in *.
+    exists (n1 + n2), m2, (ys1 ++ ys2). split; [eapply runm_seq; eauto|]. split; [rewrite Hc2; apply Hx1; right; exact Hxl|].
+    split; [eapply stamps_app; eauto|].
+    assert (Hi2 : incl ys2 (nid x :: ids r)).
+    { intros j Hj. unfold ys2 in Hj. apply in_app_or in Hj as [Hj|Hj].
+      - destruct (st tid (mtids m1) (nid x)); [destruct Hj|]. destruct Hj as [<-|[]]. left; reflexivity.
+      - right. apply (visc_in _ _ _ _ Hj). }
+    split; [|split; [|split; [|split; [|split]]]].
+    + rewrite ids_node. intros j Hj. apply in_app_or in Hj as [Hj|Hj]; apply in_or_app; [left; apply Hi1; exact Hj|right; apply Hi2; exact Hj].
+    + rewrite app_length. unfold ys2. rewrite app_length. pose proof (visc_length tid (mtids m1) r). cbn [size] in *.
+      destruct (st tid (mtids m1) (nid x)); cbn [length]; lia.
+    + intros Hall. rewrite ids_node.
+      assert (Hall1 : forall j, In j (ids (T cl ll lx lr)) -> st tid (mtids m) j = false) by (intros j Hj; apply Hall; rewrite ids_node; apply in_or_app; auto).
+      assert (Hsame : forall j, ~ In j (ids (T cl ll lx lr)) -> tid_of (mtids m1) j = tid_of (mtids m) j).
+      { intros j Hj. apply (stamps_out _ _ _ _ _ Hs1). intros Hin. apply Hj. apply Hi1. exact Hin. }
+      assert (Hstx : st tid (mtids m1) (nid x) = false).
+      { unfold st. rewrite Hsame by exact Hxl. apply Hall. rewrite ids_node; apply in_or_app; right; left; reflexivity. }
+      assert (E2 : ys2 = nid x :: ids r).
+      { unfold ys2. rewrite Hstx.
+        rewrite (visc_ext tid (mtids m1) (mtids m) r) by (intros j Hj; apply Hsame; intros Hin; exact (Hdis _ Hin Hj)).
+        rewrite visc_all; [reflexivity|]. intros j Hj. apply Hall. rewrite ids_node. apply in_or_app. right; right; exact Hj. }
+      rewrite E2. apply Permutation_app_tail. apply Hp1. exact Hall1.
+    + intros j Hj. destruct (Hout j Hj) as (A & B). rewrite Hx2 by exact B. apply Hx1. right; exact A.
+    + exact Hst2.
+    + cbn [size] in *. destruct (ust tid (mtids m1) r); lia.
+  - (* the cursor is in the right subtree *)
+    destruct r as [|cr rl rx rr]; [inversion Pr|]. cbn [linkok] in Lk.
+    destruct (IHr m i (nid rx) Pr eq_refl Hwr Hndr Hcur) as (n1 & m1 & ys1 & Hr1 & Hc1 & Hs1 & Hi1 & Hl1 & Hp1 & Hx1 & Hst1 & Hn1).
+    rewrite Lk in Hc1.
+    destruct (left_part t tid c l x (T cr rl rx rr) m1 Hwf Hnd Hc1) as (n2 & m2 & Hr2 & Hc2 & Hs2 & Hx2 & Hul & Hn2).
+    destruct (rest_part t tid c l x (T cr rl rx rr) m2 Hwf Hnd Hc2 Hul) as (n3 & m3 & Hr3 & Hc3 & Hs3 & Hx3 & Hst3 & Hn3).
+    assert (Hur : ust tid (mtids m2) (T cr rl rx rr) = false).
+    { cbn [ust]. rewrite (stamps_mono _ _ _ _ _ Hs2 Hst1). reflexivity. }
+    assert (Hvr : visc tid (mtids m2) (T cr rl rx rr) = []) by (unfold visc; rewrite Hur; reflexivity).
+    rewrite Hvr in Hr3, Hs3. rewrite Hur in Hn3. rewrite app_nil_r in Hr3, Hs3.
+    set (ys2 := visc tid (mtids m1) l) in *. set (ys3 := if st tid (mtids m2) (nid x) then [] else [nid x]) in *.
+    exists (n1 + (n2 + n3)), m3, (ys1 ++ ys2 ++ ys3). split; [eapply runm_seq; [eauto|eapply runm_seq; eauto]|].
+    split; [rewrite Hc3, Hx2 by exact Hxl; apply Hx1; right; exact Hxr|].
+    split; [eapply stamps_app; [eauto|eapply stamps_app; eauto]|].
+    assert (Hi3 : incl ys3 [nid x]) by (intros j Hj; unfold ys3 in Hj; destruct (st tid (mtids m2) (nid x)); [destruct Hj|exact Hj]).
+    split; [|split; [|split; [|split; [|split]]]].
+    + rewrite ids_node. intros j Hj. apply in_app_or in Hj as [Hj|Hj]; [apply in_or_app; right; right; apply Hi1; exact Hj|].
+      apply in_app_or in Hj as [Hj|Hj]; [apply in_or_app; left; unfold ys2 in Hj; apply (visc_in _ _ _ _ Hj)|]. apply Hi3 in Hj. destruct Hj as [<-|[]]. apply in_or_app; right; left; reflexivity.
+    + rewrite !app_length. pose proof (visc_length tid (mtids m1) l) as Hvl. fold ys2 in Hvl. cbn [size] in *.
+      unfold ys3. destruct (st tid (mtids m2) (nid x)); cbn [length]; lia.
+    + intros Hall. rewrite ids_node.
+      assert (Hall1 : forall j, In j (ids (T cr rl rx rr)) -> st tid (mtids m) j = false) by (intros j Hj; apply Hall; rewrite ids_node; apply in_or_app; right; right; auto).
+      assert (Hsame : forall j, ~ In j (ids (T cr rl rx rr)) -> tid_of (mtids m1) j = tid_of (mtids m) j).
+      { intros j Hj. apply (stamps_out _ _ _ _ _ Hs1). intros Hin. apply Hj. apply Hi1. exact Hin. }
+      assert (E2 : ys2 = ids l).
+      { unfold ys2. rewrite (visc_ext tid (mtids m1) (mtids m) l) by (intros j Hj; apply Hsame; intros Hin; exact (Hdis _ Hj Hin)).
+        apply visc_all. intros j Hj. apply Hall. rewrite ids_node. apply in_or_app. left; exact Hj. }
+      assert (E3 : ys3 = [nid x]).
+      { assert (Hstx : st tid (mtids m2) (nid x) = false).
+        { unfold st. rewrite (stamps_out _ _ _ _ _ Hs2) by (intros Hin; unfold ys2 in Hin; apply visc_in in Hin as [Hin _]; contradiction).
+          rewrite Hsame by exact Hxr. apply Hall. rewrite ids_node; apply in_or_app; right; left; reflexivity. }
+        unfold ys3. rewrite Hstx. reflexivity. }
+      rewrite E2, E3. apply (Permutation_trans (Permutation_app_comm _ _)). rewrite <- app_assoc. cbn [app].
+      apply Permutation_app_head. constructor. apply Hp1. exact Hall1.
+    + intros j Hj. destruct (Hout j Hj) as (A & B). rewrite Hx3 by exact B. rewrite Hx2 by exact A. apply Hx1. right; exact B.
+    + exact Hst3.
+    + cbn [size] in *. lia.
+Qed.
+End Climb.
 End Iter.
